@@ -87,6 +87,14 @@ namespace cnl::_impl {
                 if (!oob(output.significand)) {
                     output.significand *= InRadix;
                     in_exponent--;
+                } else {
+                    // no headroom left: drop the least significant digit
+                    // (without this the loop never terminates)
+                    if (Precise) {
+                        unreachable<descaled<Significand, OutRadix>>("number cannot be represented in this form");
+                    }
+                    output.significand /= OutRadix;
+                    output.exponent++;
                 }
             }
         }
